@@ -18,6 +18,7 @@ CONSTANTS
  K = 4
  LoopChecksFlag = FALSE
  AssertLine = FALSE
+ CapOrder <- GCap
  StopAllowed = TRUE
 INIT MCInit
 NEXT Next
